@@ -70,10 +70,14 @@ def walk_expr(e, out, role_prefix=''):
                 walk_expr(x, out)
 
 
-def profile(cat, year, d, assume):
-    """set of (role, signature, constant) the definition uses under the assumption"""
+def profile(cat, year, d, assume, csets=None):
+    """set of (role, signature, constant) the definition uses under the assumption; paths that test another line for a
+    value that line can never hold (sa/feasible.py) apply nothing and are left out"""
     ev = LineEval(cat, year, d.fr, assume=assume)
     paths = ev.run(field_closure(d.rec), [d.rec, InputsTok(d.fr.rec), ValuesTok(d.fr.rec)])
+    if csets:
+        from .feasible import infeasible
+        paths = [p for p in paths if infeasible(p, csets) is None]
     out = set()
     for p in paths:
         for (c, pol, _n, _r) in p.guards:
@@ -97,6 +101,8 @@ def year_profiles(an, year, status_enum):
     """{line key: {(role, sig): {status name: sorted consts}}}"""
     cat = an.cat
     res = {}
+    from .feasible import const_sets
+    csets = const_sets(an, year)
     for d in an.defs.values():
         if d.year != year:
             continue
@@ -106,7 +112,7 @@ def year_profiles(an, year, status_enum):
         for m in members:
             # the Form 1040 line `filing_status` mirrors the input of the same name
             assume = {'i:1040.filing_status': status_enum.member(m), 'v:1040.filing_status': status_enum.member(m)} if reads_status else {}
-            prof, _ = profile(cat, year, d, assume)
+            prof, _ = profile(cat, year, d, assume, csets)
             for (role, sg, c) in prof:
                 per.setdefault((role, sg), {}).setdefault(m, set()).add(c)
         if per:
